@@ -96,6 +96,10 @@ DRound(X, vec, d, z, payloadOk, wellFormed, complete, anyErr, outside, limit, nr
     /\ requested' = requested \cup SetOf(X)
     /\ UNCHANGED <<n, afterScan, usableSeen, phase, base>>
 
+\* C12: a round during which a write, read or seek on the target was made to fail with an errno: some callback must have
+\* signalled it to the transport (returned fewer bytes than it was given) - "all bytes stored" would be a success not achieved
+DRoundFault(firedErr, anyErr) == (firedErr => anyErr) /\ UNCHANGED dvars
+
 \* C05: fragmentation independence - the final file and markings of a round fed in any partition equal those
 \* of the same round fed in one call.  "setbase" remembers (file digest, marking); "samebase" compares.
 DSetBase(fd) == base' = [file |-> fd, valid |-> valid] /\ UNCHANGED <<n, valid, disk, afterScan, requested, usableSeen, phase>>
@@ -103,8 +107,11 @@ DSameBase(fd) == base = [file |-> fd, valid |-> valid] /\ UNCHANGED dvars
 
 \* C04: the update ends with a target identical to B that passes whole-data validation, and the chunks
 \* requested over all rounds are exactly those that were neither valid after the scan nor usable from A
-DFinish(valRet, eqB, sized) ==
+\* must = nothing stood in the way (a server that answers every request correctly, no damaged payload, no injected
+\* fault): the procedure then has to END with every chunk valid, a successful whole-data validation and B on disk
+DFinish(valRet, eqB, sized, must) ==
     /\ phase = "scanned"
+    /\ must => ((\A c \in Idx : valid[c] = 1) /\ valRet = 1 /\ eqB)
     /\ (\A c \in Idx : valid[c] = 1) => (valRet = 1 /\ eqB)
     /\ (\A c \in Idx : valid[c] = 1) =>
           requested = { c \in Idx : afterScan[c] # 1 /\ c \notin usableSeen /\ sized[c] }
